@@ -1,7 +1,7 @@
 """C03 - root update accepted iff version+1 and signed per old and new root rules."""
 import random
 
-from ..engines import noise, rootchain
+from ..engines import hostile, noise, rootchain
 from ..monitors import boundary
 from ..refs import models
 
@@ -69,6 +69,11 @@ def run_shard(spec, rec, lib):
         model, out = judge(case, rec, lib)
         if i % 25 == 7:
             noise.tick(lib, rng, spec.get("scratch"))
+        if i % 4 == 1:
+            tw = dict(case, stdout=rng.choice(hostile.MODES), row="stdout-fails:%s" % case.get("row"))
+            judge(tw, rec, lib)
+            rec.count("failing_stdout_runs")
+            rec.count("failing_stdout_write_attempts", tw.get("_stdout_write_attempts", 0))
         if out.accepted and model.v == models.ACCEPT:
             # related neighbours in the same process: the signature entries the library has just
             # verified, re-used verbatim on (a) the same version with edited content and
